@@ -701,7 +701,7 @@ def _key_le(k, v):
     return None
 
 
-def match_pos(value, keys, mode, from_end=False):
+def match_pos(value, keys, mode, from_end=False, ev=None):
     """1-based position or raises XlError('#N/A')"""
     if value is BLANK or isinstance(value, (dt.datetime,)):
         raise NoOpinion('lookup value kind')
@@ -710,6 +710,10 @@ def match_pos(value, keys, mode, from_end=False):
         for i in idx:
             if _keys_equal(keys[i], value):
                 return i + 1
+            if keys[i] is BLANK and (value == 0 or value == '') and not isinstance(value, bool) and ev is not None:
+                # "a blank cell equals 0 and the empty text" (C10) vs Excel's lookup, which skips blanks: statement silent
+                if ev.choose('blank_key_equals_zero'):
+                    return i + 1
         raise XlError('#N/A')
     if mode == 1:
         pos = None
@@ -742,7 +746,7 @@ def _match(ev, a, sh, at):
     value = ev.arg_scalar(a[0], sh, at)
     keys = _column_keys(ev.ev(a[1], sh, at))
     mode = _int_arg(ev, a[2], sh, at) if len(a) == 3 else 1
-    return match_pos(value, keys, mode)
+    return match_pos(value, keys, mode, ev=ev)
 
 
 @fn('XMATCH', 2, 4)
@@ -753,7 +757,7 @@ def _xmatch(ev, a, sh, at):
     smode = _int_arg(ev, a[3], sh, at) if len(a) == 4 else 1
     if mode != 0 or smode not in (1, -1):
         raise NoOpinion('XMATCH modes other than exact, first/last')
-    return match_pos(value, keys, 0, from_end=(smode == -1))
+    return match_pos(value, keys, 0, from_end=(smode == -1), ev=ev)
 
 
 @fn('VLOOKUP', 3, 4)
@@ -766,7 +770,7 @@ def _vlookup(ev, a, sh, at):
     approx = True
     if len(a) == 4:
         approx = truth(ev.arg_scalar(a[3], sh, at))
-    pos = match_pos(value, [row[0] for row in table.rows], 1 if approx else 0)
+    pos = match_pos(value, [row[0] for row in table.rows], 1 if approx else 0, ev=ev)
     if col < 1 or col > table.w:
         raise XlError(None)
     return table.rows[pos - 1][col - 1]
